@@ -1,12 +1,132 @@
 import DltypeModel
+import Spec
+import Proofs.Context
 namespace Dltype.C01
-open Dltype
+open Dltype Dltype.Spec Dltype.Proofs
 
-/-- placeholder non-vacuity example (the soundness theorem is added by Proofs/Context.lean) -/
+/-- C01 (context level): whenever a context is accepted — the queue of annotated tensors is drained
+    without an error, starting from the bindings `σ₀` a scope provider supplied — the final bindings
+    extend `σ₀` and EVERY tensor of the context conforms to those final bindings: rank, dtype and literal
+    axes pass the standalone check (characterised in `C03`), every non-anonymous axis is bound under its
+    dimension's identifier to the size of the axis, every expression axis has the value of its
+    expression under the final bindings, and a `*name` group absorbs the recorded number of axes. -/
+theorem accepted_conforms (acc : Acc) (σ₀ : Scope) (reg : List Name) (es : List Entry) (st' : CState)
+    (hwf : ∀ e ∈ es, MarkerInRange e.ann)
+    (h : runEntries acc { σ := σ₀, registered := reg } es = .ok st') :
+    ScopeLe σ₀ st'.σ ∧ ∀ e ∈ es, EntryConforms acc st'.σ e :=
+  runEntries_sound acc _ st' es hwf h
+
+/-- no name is ever matched against two different sizes inside one context: two axes whose dimensions
+    carry the same identifier (a name, `name=…`, or position `i` of the same `*group`), in whichever
+    tensors of the context, have the same size -/
+theorem same_identifier_same_size (σ : Scope) (d d' : DimExpr) (a a' : Nat)
+    (h : DimConforms σ d a) (h' : DimConforms σ d' a') (hid : d.identifier = d'.identifier)
+    (hn : d.isAnonymous = false) (hn' : d'.isAnonymous = false) : a = a' := by
+  rcases h with h | ⟨hb, _⟩
+  · rw [hn] at h; cases h
+  · rcases h' with h' | ⟨hb', _⟩
+    · rw [hn'] at h'; cases h'
+    · rw [hid, hb'] at hb
+      exact (Int.ofNat.inj (Option.some.inj hb)).symm
+
+/-- a `*name` group absorbs the same number of axes wherever it appears in an accepted context -/
+theorem same_group_same_length (acc : Acc) (σ : Scope) (e e' : Entry) (g : Name)
+    (h : EntryConforms acc σ e) (h' : EntryConforms acc σ e')
+    (hg : e.ann.multiName = some g) (hg' : e'.ann.multiName = some g) :
+    Int.ofNat e.tensor.shape.length - Int.ofNat (e.ann.dims.length - 1) =
+      Int.ofNat e'.tensor.shape.length - Int.ofNat (e'.ann.dims.length - 1) := by
+  have := h.group g hg
+  rw [h'.group g hg'] at this
+  exact (Option.some.inj this).symm
+
+theorem runEntries_append (acc : Acc) (st : CState) (xs ys : List Entry) :
+    runEntries acc st (xs ++ ys) =
+      (match runEntries acc st xs with
+       | .ok st1 => runEntries acc st1 ys
+       | .reject r => .reject r | .pyExc e => .pyExc e | .unmodelled => .unmodelled) := by
+  induction xs generalizing st with
+  | nil => simp [runEntries]
+  | cons x xs ih =>
+    simp only [List.cons_append, runEntries]
+    cases tensorStep acc st x with
+    | ok st1 => exact ih st1
+    | reject r => rfl
+    | pyExc e => rfl
+    | unmodelled => rfl
+
+/-- C01 (call level): whenever a call through the `dltyped` wrapper returns normally, the annotated
+    arguments and the annotated return value were drained, in this order, by ONE context that started
+    from the provider's bindings — so by `accepted_conforms` they all conform to one common assignment. -/
+theorem returned_call_is_one_accepted_context (acc : Acc) (d : FuncDecl) (p : Provider)
+    (args : List (Name × Value)) (b : BodyResult) (v : Value)
+    (h : (callWrapped acc d p args b).result = .returned v) :
+    ∃ σ₀ es esr st', providerScope p = .ok σ₀ ∧ addParams args d.params = .ok es ∧
+      runEntries acc { σ := σ₀ } (es ++ esr) = .ok st' ∧
+      (match d.ret.bind (fun h => (resolveTypes h.anns).map (fun as => (h.isTuple, as))) with
+       | none => esr = []
+       | some (isT, as) => addReturn isT as v = .ok esr) := by
+  unfold callWrapped at h
+  cases hp : providerScope p with
+  | error e =>
+    simp only [hp] at h
+    cases p with
+    | absent => simp [providerScope] at hp
+    | self s => cases s <;> simp [providerScope] at hp <;> simp_all
+    | obj s => cases s <;> simp [providerScope] at hp <;> simp_all
+  | ok σ₀ =>
+    simp only [hp] at h
+    cases ha : argsPhase acc d σ₀ args with
+    | ok st =>
+      simp only [ha] at h
+      unfold argsPhase at ha
+      cases hes : addParams args d.params with
+      | ok es =>
+        simp only [hes] at ha
+        cases b with
+        | raises => simp at h
+        | returns w =>
+          simp only at h
+          unfold returnPhase at h
+          cases hr : d.ret.bind (fun h => (resolveTypes h.anns).map (fun as => (h.isTuple, as))) with
+          | none =>
+            refine ⟨σ₀, es, [], st, rfl, rfl, by simpa using ha, by simp [hr]⟩
+          | some pr =>
+            obtain ⟨isT, as⟩ := pr
+            simp only [hr] at h
+            cases hadd : addReturn isT as w with
+            | ok esr =>
+              simp only [hadd] at h
+              cases hrun : runEntries acc st esr with
+              | ok st' =>
+                simp only [hrun] at h
+                injection h with h
+                subst h
+                refine ⟨σ₀, es, esr, st', rfl, rfl, ?_, by simp [hr, hadd]⟩
+                rw [runEntries_append, ha]
+                exact hrun
+              | reject r => simp [hrun] at h
+              | pyExc e => simp [hrun] at h
+              | unmodelled => simp [hrun] at h
+            | reject r => simp [hadd] at h
+            | pyExc e => simp [hadd] at h
+            | unmodelled => simp [hadd] at h
+      | reject r => simp [hes] at ha
+      | pyExc e => simp [hes] at ha
+      | unmodelled => simp [hes] at ha
+    | reject r => simp [ha] at h
+    | pyExc e => simp [ha] at h
+    | unmodelled => simp [ha] at h
+
+/-- non-vacuity: a three-tensor context with a marker, a named expression and a provider name is
+    accepted and meets the hypotheses -/
 theorem example_accept :
-    (runEntries (fun _ _ => true) {}
-      [{ argIndex := 0, name := ['x'], tensor := { dt := ⟨0, 0⟩, shape := [2, 3] },
-         ann := { dims := [{ identifier := ['a'], post := [.str ['a']] }, { identifier := ['b'], post := [.str ['b']] }] } }]
-      matches .ok _) = true := by decide
+    (match parseShape (some "a b".toList), parseShape (some "*g c=a+b".toList), parseShape (some "k c".toList) with
+     | .ok a1, .ok a2, .ok a3 =>
+       (runEntries (fun _ _ => true) { σ := [(['k'], 7)] }
+          [{ argIndex := 0, name := ['x'], tensor := { dt := ⟨0, 0⟩, shape := [2, 3] }, ann := a1 },
+           { argIndex := 0, name := ['y'], tensor := { dt := ⟨0, 0⟩, shape := [4, 4, 5] }, ann := a2 },
+           { argIndex := 0, name := ['z'], tensor := { dt := ⟨0, 0⟩, shape := [7, 5] }, ann := a3 }]
+        matches .ok _)
+     | _, _, _ => false) = true := by decide
 
 end Dltype.C01
